@@ -294,7 +294,10 @@ err_t btokBAuthCTStep2(octet out[], const bake_cert* certt, void* state)
 	if (!objIsOperable(s))
 		return ERR_BAD_INPUT;
 	n = s->ec->f->n, no = s->ec->f->no;
-	if (!memIsValid(out, 2 * no + no / 2 + 16))
+	if (!memIsValid(out, 2 * no + no / 2 + 16) ||
+		!memIsValid(certt, sizeof(bake_cert)) ||
+		!memIsValid(certt->data, certt->len) ||
+		certt->val == 0)
 		return ERR_BAD_INPUT;
 	ASSERT(memIsDisjoint2(out, 2 * no + no / 2 + 16, s, objKeep(s)));
 	// раскладка стека
